@@ -88,6 +88,10 @@ theorem heap_inv_reachable (c : Cls α) (hc : Lawful c) (ops : List (HOp (Op α)
   · intro s o s' hi ho hs
     exact step_inv c hc s s' o hi ho hs
 
+example : ∀ s ∈ (hrun (seqSem (simpleCls (0 : Int))) ⟨[⟨[1, 2, 3], 4, 7, 16, 4⟩], 0⟩
+    [.op (.slice (some (-2)) none), .op (.setLength 4 true), .switch 0, .op (.sliceStep none none (-1)), .op .deepcopy]).objs,
+    s.stop - s.start = (s.events.length : Int) := by decide
+
 /-- every event of every Melody object of the heap stays within -2..127 -/
 theorem melody_heap_in_range (ops : List (HOp (Op Int))) (h : Heap (Seq Int))
     (hall : ∀ s ∈ h.objs, Inv melodyCls s) (hok : ∀ o, HOp.op o ∈ ops → OpOk melodyCls o) :
@@ -113,6 +117,43 @@ theorem store_wf_reachable (ops : List SOp) (st : LStore) (hw : WF st) : WF (sru
   induction ops generalizing st with
   | nil => exact hw
   | cons op ops ih => simp only [srun, List.foldl_cons]; exact ih _ (sskip_wf st op hw)
+
+theorem single_wf (l : LeadSheet) : WF (LStore.single l) := by
+  refine ⟨by simp [LStore.single], ?_⟩
+  intro k mi ci hk
+  cases k with
+  | zero => simp [LStore.single] at hk; simp [LStore.single, ← hk.1, ← hk.2]
+  | succ k => simp [LStore.single] at hk
+
+/-- a deep-copied lead sheet is private: after `deepcopy` and a switch back to any older lead sheet
+`k`, no other lead sheet holds the copy's Melody or ChordProgression object -/
+theorem lead_copy_is_private (st : LStore) (hw : WF st) (a b : LeadSheet)
+    (ha : st.view st.cur = some a) (hd : lstep a .deepcopy = .ok b) (k : Nat) (hk : k < st.leads.length) :
+    sskip st (.lead .deepcopy) = st.apply (.alloc b) ∧
+    sskip (st.apply (.alloc b)) (.switch k) = { st.apply (.alloc b) with cur := k } ∧
+    Priv st.leads.length st.mels.length st.chds.length (sskip (sskip st (.lead .deepcopy)) (.switch k)) := by
+  have e : sskip st (.lead .deepcopy) = st.apply (.alloc b) := by
+    simp only [sskip, effect, ha, hd, lopFresh, if_true]
+  have hwf1 : WF (st.apply (.alloc b)) := apply_wf st _ hw trivial
+  have hlead : (st.apply (.alloc b)).leads[st.leads.length]? = some (st.mels.length, st.chds.length) := by
+    simp [LStore.apply]
+  have hsw : sskip (st.apply (.alloc b)) (.switch k) = { st.apply (.alloc b) with cur := k } := by
+    simp only [sskip, effect, LStore.apply, List.length_append, List.length_singleton]
+    rw [if_pos (by omega)]
+  refine ⟨e, hsw, ?_⟩
+  rw [e, hsw]
+  refine ⟨⟨by simp [LStore.apply]; omega, hwf1.2⟩, by simp; omega, hlead, ?_⟩
+  intro j mi ci hj hjr
+  simp only [LStore.apply] at hjr
+  rcases getElem?_snoc _ _ _ _ hjr with hjr | ⟨hj', _⟩
+  · have := hw.2 j mi ci hjr; omega
+  · exact (hj hj').elim
+
+/-- the hypotheses are satisfiable: a store with one lead sheet, its deepcopy -/
+example : WF (LStore.single ⟨⟨[60], 0, 1, 16, 4⟩, ⟨["C"], 0, 1, 16, 4⟩⟩) ∧
+    (LStore.single ⟨⟨[60], 0, 1, 16, 4⟩, ⟨["C"], 0, 1, 16, 4⟩⟩).view 0 = some ⟨⟨[60], 0, 1, 16, 4⟩, ⟨["C"], 0, 1, 16, 4⟩⟩ ∧
+    lstep ⟨⟨[60], 0, 1, 16, 4⟩, ⟨["C"], 0, 1, 16, 4⟩⟩ .deepcopy = .ok ⟨⟨[60], 0, 1, 16, 4⟩, ⟨["C"], 0, 1, 16, 4⟩⟩ :=
+  ⟨single_wf _, rfl, rfl⟩
 
 /-- `b = deepcopy(a)` for lead sheets: `b` holds a new Melody and a new ChordProgression object,
 so it shares nothing with `a`, with the Melody / ChordProgression objects `a` was built from, or
@@ -168,16 +209,8 @@ theorem lead_deepcopy_independent (st : LStore) (hw : WF st) (a b : LeadSheet)
       obtain ⟨b1, b2⟩ := hw.2 k mi ci hr
       exact view_congr st _ k mi ci hr ((l2 k hk).trans hr) (m2 mi b1) (c2 ci b2)
   · intro ops k hk hops
-    have hsw : sskip (st.apply (.alloc b)) (.switch k) = { st.apply (.alloc b) with cur := k } := by
-      simp only [sskip, effect, LStore.apply, List.length_append, List.length_singleton]
-      rw [if_pos (by omega)]
-    have hpriv : Priv st.leads.length st.mels.length st.chds.length { st.apply (.alloc b) with cur := k } := by
-      refine ⟨⟨by simp [LStore.apply]; omega, hwf1.2⟩, by simp; omega, hlead, ?_⟩
-      intro j mi ci hj hjr
-      simp only [LStore.apply] at hjr
-      rcases getElem?_snoc _ _ _ _ hjr with hjr | ⟨hj', _⟩
-      · have := hw.2 j mi ci hjr; omega
-      · exact (hj hj').elim
+    obtain ⟨_, hsw, hpriv⟩ := lead_copy_is_private st hw a b ha hd k hk
+    rw [e, hsw] at hpriv
     obtain ⟨hp, m1, c1⟩ := srun_priv _ _ _ ops _ hpriv hops
     rw [e, hsw]
     rw [view_congr (st.apply (.alloc b)) _ st.leads.length st.mels.length st.chds.length hlead hp.2.2.1 m1 c1]
@@ -189,6 +222,10 @@ theorem lead_private_untouched (b bm bc : Nat) (ops : List SOp) (st : LStore) (h
     (hops : ∀ op ∈ ops, SOpAvoid b op) : (srun st ops).view b = st.view b := by
   obtain ⟨hp, m1, c1⟩ := srun_priv b bm bc ops st h hops
   exact view_congr st _ b bm bc h.2.2.1 hp.2.2.1 m1 c1
+
+/-- `Priv` is what `lead_copy_is_private` establishes for a deep-copied lead sheet -/
+example : Priv 1 1 1 (sskip (sskip (LStore.single ⟨⟨[60], 0, 1, 16, 4⟩, ⟨["C"], 0, 1, 16, 4⟩⟩) (.lead .deepcopy)) (.switch 0)) :=
+  (lead_copy_is_private _ (single_wf _) _ _ rfl rfl 0 (by decide)).2.2
 
 /-- deepcopy versus the constructor: `LeadSheet(l.melody, l.chords)` shares both objects with `l`
 (an append through the new lead sheet shows in `l`), `deepcopy(l)` shares nothing (it does not);
